@@ -406,36 +406,37 @@ function!(BitNot(b:Integer)=>Integer, {
 
 function!(Negative(b:Integer)=>Integer, {
     let b:i64 = b.try_into()?;
-    Ok((-b).into())
+    b.checked_neg().map(Into::into).ok_or_else(|| err_msg("integer overflow"))
 });
 
+// Arithmetic never panics: division by zero, overflow and out of range shift amounts are
+// evaluation errors.
 macro_rules! int_op{
-    ($name:ident, $op:tt) =>{
+    ($name:ident, $f:expr, $msg:expr) =>{
         function!($name(a: Integer, b: Integer)=>Integer, {
             let a:i64 = a.try_into()?;
             let b:i64 = b.try_into()?;
-            Ok((a $op b).into())
+            let f: fn(i64, i64) -> Option<i64> = $f;
+            f(a, b).map(Into::into).ok_or_else(|| err_msg($msg))
         });
     }
 }
 
-int_op!(Plus,+);
-int_op!(Minus,-);
-int_op!(Multiply,*);
-int_op!(Divide,/);
-int_op!(Mod,%);
-int_op!(BitAnd,&);
-int_op!(BitOr,|);
-int_op!(BitXor,^);
-int_op!(ShiftLeft,<<);
-int_op!(ShiftRight,>>);
-function!(ShiftRightUnsigned(a: Integer, b: Integer)=>Integer, {
-    let a:i64 = a.try_into()?;
-    let b:i64 = b.try_into()?;
-    let a = a as u64;
-    let a = (a >> b) as i64;
-    Ok(a.into())
-});
+fn shift_amount(b: i64) -> Option<u32> {
+    u32::try_from(b).ok().filter(|b| *b < 64)
+}
+
+int_op!(Plus, |a, b| a.checked_add(b), "integer overflow");
+int_op!(Minus, |a, b| a.checked_sub(b), "integer overflow");
+int_op!(Multiply, |a, b| a.checked_mul(b), "integer overflow");
+int_op!(Divide, |a, b| a.checked_div(b), "division by zero or integer overflow");
+int_op!(Mod, |a, b| a.checked_rem(b), "division by zero or integer overflow");
+int_op!(BitAnd, |a, b| Some(a & b), "");
+int_op!(BitOr, |a, b| Some(a | b), "");
+int_op!(BitXor, |a, b| Some(a ^ b), "");
+int_op!(ShiftLeft, |a, b| shift_amount(b).map(|b| a << b), "integer overflow: shift amount out of range");
+int_op!(ShiftRight, |a, b| shift_amount(b).map(|b| a >> b), "integer overflow: shift amount out of range");
+int_op!(ShiftRightUnsigned, |a, b| shift_amount(b).map(|b| ((a as u64) >> b) as i64), "integer overflow: shift amount out of range");
 
 function!(And(a: Boolean, b: Boolean)=>Boolean, ctx=ctx, arg_opts=raw,{
     let a:bool = a.real_value_of(ctx.clone())?.try_into()?;
